@@ -37,6 +37,10 @@ SHAPE_RULE_HOSTS = ["host_scatter_dynamic", "host_scatter_static", "host_reshape
                     "host_cast_cos", "host_one_reshape_matmul", "host_two_reshapes_matmul", "host_matmul_add", "host_unsqueeze_unsqueeze"]
 
 
+# hosts of exported rule sets that the default pipeline does not contain: only their own shards reach them (api "rule"), so they get more cases
+NON_DEFAULT_RULE_HOSTS = ("host_expand_before_binary_op",)
+
+
 def _plant_symbolic_idioms(g, kind=None):
     """Shape idioms over inputs whose declared dims are symbolic: distinct symbol names with EQUAL sample sizes, repeated names,
     so that bindings such as (N=0, M != K) or (M == K) are in the model's domain although the sample has M == K."""
@@ -113,7 +117,7 @@ def plan(tier, seed, budget):
     # general shards + dedicated shards, one per shape idiom (construction, not rejection: the idiom is planted first and is an output)
     reps = 1 if tier == "quick" else 8
     return ([{"n": max(1, n // shards)} for _ in range(shards)] + [{"n": max(5, n // (shards * 3)), "idiom": k} for k in IDIOMS for _ in range(reps)]
-            + [{"n": max(30, n // shards), "host": h} for h in SHAPE_RULE_HOSTS for _ in range(reps)])
+            + [{"n": max(30, n // shards) * (12 if h in NON_DEFAULT_RULE_HOSTS else 1), "host": h} for h in SHAPE_RULE_HOSTS for _ in range(reps)])
 
 
 def bindings_for(gm, seed, cap=60):
@@ -140,7 +144,15 @@ def interesting(b):
 
 def check(model, gm, o, combos, seed, fixed_feeds=None):
     verdicts, info = [], {"bindings": 0, "compared": 0, "widened": 0, "source_rejects": 0, "split": 0, "interesting_compared": 0}
-    r = optcommon.apply_api(model, o)
+    if o["api"] == "rule":
+        # a shape-dependent rule (set) applied on its own - the only way the rule sets that are exported but not part of the default
+        # pipeline (expand_before_binary_op_rules) are reached; same oracle: every binding the source accepts
+        from vf.props.C05 import apply_rule
+
+        r = apply_rule(model, o["rule"])
+        r = ("ok", r[2]) if r[0] == "ok" else r
+    else:
+        r = optcommon.apply_api(model, o)
     if r[0] == "raise":
         info["raised"] = True
         return verdicts, info
@@ -267,7 +279,17 @@ def run_shard(spec):
                 g.__dict__.setdefault("forced", []).extend(v for v in r if isinstance(getattr(v, "arr", None), np.ndarray) and v.kind == "node")
 
         cfg.update(pre=pre, min_inputs=0, max_inputs=1, max_nodes=3, min_nodes=0)
-    drive(st.tuples(optcommon.option_tuples(["optimize", "optimize", "optimize_ir", "fold_constants_si", "rewrite"]), modelgen.models(cfg)), body, spec["n"], spec["seed"])
+    opts = optcommon.option_tuples(["optimize", "optimize", "optimize_ir", "fold_constants_si", "rewrite"])
+    if spec.get("host"):
+        from vf.rulehosts.plant import HOSTS
+
+        units = sorted(n for n, fns in HOSTS.items() if any(f.__name__ == spec["host"] for f in fns))
+        from vf.props.C05 import rule_units
+
+        units = [u for u in units if u in rule_units()]
+        if units:  # half of the host's cases apply the host's own rule unit alone
+            opts = st.one_of(opts, st.sampled_from(units).map(lambda u: {"api": "rule", "rule": u}))
+    drive(st.tuples(opts, modelgen.models(cfg)), body, spec["n"], spec["seed"])
     return col.result()
 
 
